@@ -62,6 +62,13 @@ def plant_api(asm, acc, fault_class, fault, pos, depth, compress, root=None):
     else:
         # chain of files: main includes d1 includes d2 ...; the deepest holds the planted program
         names = ['main.asm'] + ['d%d.asm' % i for i in range(1, depth + 1)]
+        extra = 0
+        if (pos + depth) % 2 == 0:
+            # a binary include that resolves fine sits before the planted line in the same file
+            with open(os.path.join(root, 'blob.bin'), 'wb') as f:
+                f.write(b'\x01\x02\x03\x04')
+            lines = ['include_bytes blob.bin'] + lines
+            extra = 1
         for i, n in enumerate(names):
             p = os.path.join(root, n)
             if i == depth:
@@ -72,7 +79,7 @@ def plant_api(asm, acc, fault_class, fault, pos, depth, compress, root=None):
             with open(p, 'w') as f:
                 f.write('\n'.join(body) + '\n')
         o = monitors.observe(asm, os.path.join(root, 'main.asm'), compress, tap=False)
-        want_file, want_line = os.path.join(root, names[depth]), pos + 1
+        want_file, want_line = os.path.join(root, names[depth]), pos + 1 + extra
         same_file = lambda f: isinstance(f, str) and os.path.realpath(f) == os.path.realpath(want_file)  # noqa
     if o.ok:
         # the fault was not a fault for this tree (e.g. a refactoring started accepting the syntax): nothing is refused, so the
